@@ -133,7 +133,11 @@ var (
 	ErrInvalidRequestExceptedArray       = errors.New("invalid request, expected array")
 	ErrInvalidRequestExceptedArrayLength = errors.New("invalid request, expected array length")
 	ErrInvalidRequestExceptedBulk        = errors.New("invalid request, expected bulk")
+	ErrInvalidRequestBulkLength          = errors.New("invalid request, bulk length out of range")
 )
+
+// maxBulkSize is the protocol's limit for one bulk string (512 MiB)
+const maxBulkSize = 512 * 1024 * 1024
 
 func (r *Reader) ReadCommand() error {
 	r.reset()
@@ -254,6 +258,10 @@ func (r *Reader) readBulk() (string, error) {
 	l, err := r.readInteger()
 	if err != nil {
 		return "", err
+	}
+	if l < 0 || l > maxBulkSize {
+		// never index or allocate with a length the client made up
+		return "", ErrInvalidRequestBulkLength
 	}
 	err = r.readByteN(l)
 	if err != nil {
